@@ -1,6 +1,12 @@
-(* C15 tie tactics: structural congruence between a traced term and the unfolded model, with linear
-   arithmetic at the leaves (so the representation of constants -- 0.04045 vs 809/20000 -- and any
-   reformulation that lra / field can see through do not matter). *)
+(* C15 tie tactics.  A traced term is proved equal to the unfolded model in two alternating modes:
+   - at a NON-ARITHMETIC head (if-then-else, Rpower, Rfmod, Rfloor, Rmax, Rmin, boolean tests) by congruence on the
+     arguments (for if-then-else also a guarded congruence: inside a branch the condition is known, so a clamp that is
+     the identity there is seen through);
+   - at an ARITHMETIC head by normalisation at the granularity of the whole arithmetic expression: every maximal
+     non-arithmetic subterm ("atom") of the left side is first replaced by the atom of the right side it is proved
+     equal to (recursively, by this same tactic), then lra / ring / field decide the equation.  Commuted products,
+     re-associated sums, factored-out subexpressions, other spellings of constants (0.04045 vs 809/20000, 1 + 0.055
+     vs 1.055) are therefore invisible; a changed constant, sign, index, operand or dropped term is not provable. *)
 From Coq Require Import Reals Lra Bool.
 From OdakV Require Import Base.RealAux C15.Model.
 Open Scope R_scope.
@@ -35,13 +41,52 @@ Ltac open_model :=
     lab_L lab_a lab_b lab_factor2 lab_xn lab_zn lab_finv ilab_fy ilab_fx ilab_fz ilab_X ilab_Y ilab_Z
     ilab_lr ilab_lg ilab_lb ilab_r ilab_g ilab_b p2l l2p third_0 third_1 third_2].
 
+(* k is run on the maximal non-arithmetic subterms of t, left to right, until it succeeds on one *)
+Ltac each_atom t k :=
+  lazymatch t with
+  | ?x + ?y => first [each_atom x k | each_atom y k]
+  | ?x - ?y => first [each_atom x k | each_atom y k]
+  | ?x * ?y => first [each_atom x k | each_atom y k]
+  | ?x / ?y => first [each_atom x k | each_atom y k]
+  | - ?x => each_atom x k
+  | / ?x => each_atom x k
+  | ?x ^ _ => each_atom x k
+  | IZR _ => fail
+  | Q2R _ => fail                      (* decimal literals *)
+  | R0 => fail
+  | R1 => fail
+  | PI => fail
+  | _ => first [is_var t; fail 1 | k t]
+  end.
+(* once the atoms of both sides agree syntactically they are turned into variables, so that ring / field never
+   compare two large non-arithmetic terms up to conversion *)
+Ltac abstract_atoms :=
+  repeat match goal with
+  | |- ?L = ?R =>
+      first [ each_atom L ltac:(fun a => let v := fresh "atom" in generalize a; intro v)
+            | each_atom R ltac:(fun a => let v := fresh "atom" in generalize a; intro v) ]
+  end.
+Ltac same_head a b :=
+  lazymatch a with
+  | (if _ then _ else _) => lazymatch b with (if _ then _ else _) => idtac end
+  | Rpower _ _ => lazymatch b with Rpower _ _ => idtac end
+  | Rfmod _ _ => lazymatch b with Rfmod _ _ => idtac end
+  | Rfloor _ => lazymatch b with Rfloor _ => idtac end
+  | Rmax _ _ => lazymatch b with Rmax _ _ => idtac end
+  | Rmin _ _ => lazymatch b with Rmin _ _ => idtac end
+  | _ => idtac
+  end.
+
 Ltac tie :=
   first
   [ match goal with |- ?a = ?a => reflexivity end
   | match goal with
-    | |- (if _ then _ else _) = (if _ then _ else _) =>
-        first [ apply ite_ext; [tieb | tie | tie]
-              | apply ite_ext_g; [tieb | let Hc := fresh "Hc" in intro Hc; use_guard Hc; tie | let Hc := fresh "Hc" in intro Hc; use_guard Hc; tie] ]
+    | |- (if ?c then _ else _) = (if ?c' then _ else _) =>
+        let Hcc := fresh "Hcond" in
+        assert (Hcc : c = c') by tieb;                  (* the condition is proved once *)
+        first [ apply (ite_ext _ _ _ _ _ _ Hcc); tie
+              | apply (ite_ext_g _ _ _ _ _ _ Hcc); clear Hcc;
+                [ let Hc := fresh "Hc" in intro Hc; use_guard Hc; tie | let Hc := fresh "Hc" in intro Hc; use_guard Hc; tie ] ]
     | |- Rpower _ _ = Rpower _ _ => apply f_equal2; tie
     | |- Rfmod _ _ = Rfmod _ _ => apply f_equal2; tie
     | |- Rmax _ _ = Rmax _ _ => apply f_equal2; tie
@@ -49,16 +94,22 @@ Ltac tie :=
     | |- Rfloor _ = Rfloor _ => apply f_equal; tie
     end
   | lra
-  | ring
-  | match goal with
-    | |- _ + _ = _ + _ => apply f_equal2; tie
-    | |- _ - _ = _ - _ => apply f_equal2; tie
-    | |- _ * _ = _ * _ => apply f_equal2; tie
-    | |- _ / _ = _ / _ => apply f_equal2; tie
-    | |- - _ = - _ => apply f_equal; tie
-    | |- _ ^ ?n = _ ^ ?n => apply (f_equal (fun t => t ^ n)); tie
-    end
-  | (field; lra) ]
+  | repeat unify_atom; abstract_atoms; first [lra | ring | (field; lra)] ]
+(* replace one atom of the left side that does not occur on the right by the right-side atom it equals *)
+with unify_atom :=
+  match goal with
+  | |- ?L = ?R =>
+      each_atom L ltac:(fun a =>
+        lazymatch R with context [a] => fail | _ => idtac end;
+        each_atom R ltac:(fun b =>
+          same_head a b;
+          lazymatch constr:((a, b)) with (L, R) => fail | _ => idtac end;      (* never re-pose the goal itself *)
+          let H := fresh "Hatom" in
+          assert (H : a = b) by tie;
+          (* syntactic replacement (generalize + subst); `rewrite` would compare a with other large subterms up to conversion *)
+          let v := fresh "atom" in let Hv := fresh "Hatom" in
+          generalize H; clear H; generalize a; intros v Hv; subst v))
+  end
 with tieb :=
   first
   [ match goal with |- ?a = ?a => reflexivity end
